@@ -215,11 +215,13 @@ def fmt_raw(t):
 
 def classify(ctx, op, prec, records, opclasses, kind, store_kind=None):
     """mechanism key of a containment failure"""
-    checked = O.check_records(records, ctx.consensus if op in GAMMA_FUNS else None)
+    checked = O.check_records(records, ctx.cons() if op in GAMMA_FUNS else None)
     ctx.tap_checked += len(checked)
-    # a wrong-side directed primitive explains the failure better than a defect of an interval-level routine that
-    # merely used it: look at the mpf-level records first
-    order = [c for c in checked if c[0] != 'mpi_atan2'] + [c for c in checked if c[0] == 'mpi_atan2']
+    # order of blame: an interval-level routine that itself produced an inverted interval; then a wrong-side directed
+    # primitive (it explains a failure better than the interval routine that merely used its value); then an
+    # interval-level routine whose own result misses its own sample points
+    inv = [c for c in checked if c[0] == 'mpi_atan2' and c[3] == 'violated' and c[4] is None]
+    order = inv + [c for c in checked if c[0] != 'mpi_atan2'] + [c for c in checked if c[0] == 'mpi_atan2' and c not in inv]
     for name, args, ret, verdict, exc in order:
         if verdict == 'violated':
             if name == 'mpi_atan2':
